@@ -121,6 +121,26 @@ class C05(Spec):
             w.fetch(a)
             w.meta.update({"fault": "cut-hop2", "k": k, "hops": 2})
             cases.append(w.case())
+        # a REDIRECT cut at every byte: a Location line that has not been received completely must not be followed - every
+        # prefix of the target URL is served too, so a follower of a partial Location would come back with a wrong document
+        for variant in range(2 if tier == "quick" else 6):
+            k, done = 0, False
+            while not done:
+                w = netgen.World(base, 128)
+                a = w.url(0, "/redir")
+                tgt = w.url(1, "/users/alice10%d" % variant)
+                red = netgen.http_response(status="HTTP/1.1 302 Found", headers=["Server: sim", "Location: " + tgt] if variant % 2 == 0 else ["location:  " + tgt + " "],
+                                           body=b"", eol="\r\n" if variant % 2 == 0 else "\n")
+                done = k >= len(red)
+                w.serve(a, red[:k], 0)
+                path = "/" + tgt.split("/", 3)[3]
+                hostpart = tgt[:len(tgt) - len(path)]
+                for j in range(1, len(path) + 1):
+                    w.serve(hostpart + path[:j], netgen.ok_json({"served": path[:j]}))
+                w.fetch(a)
+                w.meta.update({"fault": "cut-redirect", "k": k, "hops": 2})
+                cases.append(w.case())
+                k += 1
         # stalls, resets, trickles
         stall_points = [0, 5, 17, 40, len(resp) - 20, len(resp) - 1]
         for k in stall_points:
